@@ -5,6 +5,7 @@ import (
 	"go/ast"
 	"go/token"
 	"go/types"
+	"os"
 	"sort"
 	"strings"
 
@@ -205,6 +206,9 @@ func runC24(c *core.Ctx) {
 				}
 			})
 			ok := merge != nil && send != nil && trunc != nil && an.Dominates(merge, send) && an.Dominates(send, trunc)
+			if os.Getenv("RQCHECK_DEBUG_C24") != "" {
+				fmt.Fprintf(os.Stderr, "C24 value form: run=%s flush=%s merge=%v send=%v trunc=%v ok=%v\n", run.String(), flush.String(), merge, send, trunc, ok)
+			}
 			if ok {
 				ok = an.Unwrap(send.(*ssa.Send).X) == merge.(ssa.Value)
 			}
@@ -458,6 +462,37 @@ func runC24(c *core.Ctx) {
 				}
 			}
 		})
+		// the merged slice is the request's own memory: Request.Objects only ever
+		// grows by append onto itself (from nil or a fresh make), it never starts
+		// as a queued write's slice — append would then write the later writes into
+		// that caller's spare capacity
+		okOwn, stores := true, 0
+		an.Instrs(merge, func(in ssa.Instruction) {
+			st, ok := in.(*ssa.Store)
+			if !ok {
+				return
+			}
+			if t, f, _, ok := an.FieldOf(st.Addr); !ok || t != "Request" || f != "Objects" {
+				return
+			}
+			stores++
+			v := an.Unwrap(st.Val)
+			if call, isCall := v.(*ssa.Call); isCall {
+				if bi, isB := call.Common().Value.(*ssa.Builtin); isB && bi.Name() == "append" && an.MentionsField(call.Common().Args[0], "Request", "Objects") && !an.MentionsField(call.Common().Args[0], "queuedObjects", "Objects") {
+					return
+				}
+			}
+			if _, isMake := v.(*ssa.MakeSlice); isMake {
+				return
+			}
+			if an.IsNilConst(v) {
+				return
+			}
+			okOwn = false
+		})
+		c.Result(okOwn && stores > 0, "C24.c", "OWN", "mergeQueued:merged-slice-is-own-memory", c.P.Pos(merge.Pos()),
+			"the merged request's Objects grow only by append onto the request's own slice",
+			"mergeQueued lets the merged request's Objects start as (or be replaced by) a queued write's own slice: appending the following writes can overwrite that caller's backing array, so objects of another write are lost or duplicated", nil)
 		c.Result(okAppend, "C24.c", "DOM", "mergeQueued:whole-in-order", c.P.Pos(merge.Pos()), "each queued write's objects are appended whole, in index order", "mergeQueued does not append each element's Objects whole in index order", nil)
 		c.Result(okMax, "C24.c", "DOM", "mergeQueued:max-sequence", c.P.Pos(merge.Pos()), "the merged request carries the maximum sequence number", "mergeQueued does not keep the maximum sequence number", nil)
 	}
